@@ -171,6 +171,8 @@ def recorded_on_every_exit(ctx, f, fld, src):
 
 
 def run(ctx):
+    from .C16 import resolve_rule
+    resolve_rule(ctx)          # `exists` answers by what resolveWildcard returns: existing cgroup DIRECTORIES only
     percent_threshold_exact(ctx, "C08")
     # memory_above parses its threshold through it
     ma_init = ctx.fn1("Oomd::MemoryAbove::init")
